@@ -49,6 +49,7 @@ def validate(sessions, workdir, nshards=None, timeout=3600, module="Trace_Solver
         rec = {k: s[k] for k in ("tid", "fam", "exact", "descs", "events")}
         rec["rel"] = s.get("rel", {"kind": "none"})
         rec["eps"] = s.get("eps", 1000)          # the threshold in nano units (10^-6)
+        rec["rmulpow"] = int(s.get("rmulpow", 0)) # rewards were multiplied by 2**rmulpow (0: not)
         obs.check_ints(rec)
         shards[i % nshards].append(rec)
     # big sessions (thousands of states) get shards of their own
